@@ -21,7 +21,7 @@ var Check = &mc.Check{
 	ID:    "C07",
 	Level: "model_checking",
 	Rule: "every string of <=N tokens over {/ . a %2e %2f % \\} (N=8 quick, 10 thorough) and of <=5 (6) tokens over the extended alphabet adding {%2E %252e %2F %5c .. //}, and of <=5 tokens behind paddings of 118..132 and 4090 bytes, " +
-		"fed to URI.Parse(host,target).Path() (host set / unset) and utils.CleanPath; non-trivial = targets whose decoded form contains a '..' segment, a '.' segment or an empty segment (the normaliser has to act)",
+		"fed to URI.Parse(host,target).Path() (host set / unset) and utils.CleanPath; part S: every target of <=3 (4) tokens over {/ pub a .. %2e %09 TAB 0x01 0x7f 0x0b} x {HTTP/1.1, HTTP/1.0, no version} x {Host, no Host} through Engine.Serve with routes /, /pub/*x and NoRoute - the handler that runs is the one the reference path selects and sees that path; non-trivial = targets whose decoded form contains a '..' segment, a '.' segment or an empty segment (the normaliser has to act)",
 	Run:    run,
 	Replay: replay,
 	Assumptions: []string{
@@ -338,6 +338,8 @@ func run(c *mc.Ctx) {
 	// virtual hosting: the path rewriter prepends the request's host to the (already decoded) path; what the file
 	// handler then serves from must still be "the host's directory" + the path decoded ONCE and resolved
 	vhost(c)
+	// the same reference through the real server and router, control bytes included
+	serverPart(c)
 	enum(c, base, nb, "base", "")
 	enum(c, ext, ne, "ext", "")
 	// long targets: the same token strings behind paddings that straddle CleanPath's 128-byte stack buffer
@@ -351,6 +353,11 @@ func run(c *mc.Ctx) {
 func replay(c *mc.Ctx, raw json.RawMessage) {
 	var cs Case
 	if json.Unmarshal(raw, &cs) != nil {
+		return
+	}
+	var sc SCase
+	if json.Unmarshal(raw, &sc) == nil && sc.Server {
+		newSrvWorker().one(c, sc)
 		return
 	}
 	var vc VCase
